@@ -395,3 +395,10 @@ PLAN["C02"]["rule"] += ("; a third of the injected failures are 'diskerr': the r
                         "happens inside Replica.WriteAt; TestC02Restart: after such a history every replica stops (cleanly or abandoned), the controller restarts, replicas register in a generated order "
                         "and the restarted volume must serve every acknowledged write")
 HOOK_COMMITS.append("346214a")
+
+PLAN["C03"]["quick"]["tests"][0]["shards"] = 13
+PLAN["C03"]["quick"]["tests"].append({"run": "TestC03Bootstrap", "shards": 3, "checks": 60, "timeout": 130})
+PLAN["C03"]["thorough"]["tests"][0]["shards"] = 13
+PLAN["C03"]["thorough"]["tests"].append({"run": "TestC03Bootstrap", "shards": 3, "checks": 1500, "timeout": 840})
+PLAN["C03"]["rule"] += ("; TestC03Bootstrap: the scripted bootstrap programs of C09 (registrations through the REST API or directly, revision counts up to 2^62, single- and multi-address starts) - "
+                        "the volume is never writable while fewer than floor(RF/2)+1 attached replicas hold the highest revision count, and ReadOnly/RWReplicaCount follow every step")
